@@ -1002,7 +1002,13 @@ func c14Enumerate(thorough bool) []c14Family {
 			f1s = []string{"solid"}
 		}
 		for _, s1 := range firstSets {
-			for _, f1 := range f1s {
+			f1x := f1s
+			if s1 == 255 {
+				// all eight octants carry one and the same label: the stored lower-resolution block is solid (a single-label
+				// block), and the second write touches only some of its octants
+				f1x = append(append([]string{}, f1s...), "shared")
+			}
+			for _, f1 := range f1x {
 				for _, s2 := range secondSets {
 					for _, f2 := range f2s {
 						for _, m2 := range m2s {
